@@ -137,6 +137,12 @@ def oracle(ctx, obs):
                     ctx.violation("S5", f"K changes under '{var}': {base!r} -> {kv!r} ({o[var]['class']}) ({fam}, n={n})",
                                   {"kind": "invariance", "variant": var, "family": fam, "n": n},
                                   dict(rep, variant=var, variant_k=kv, scale_c=[f64_of_hex(x) for x in o.get("scale_c", [])]))
+            for r in o.get("scaled_extreme", []):
+                kv = kval(r["result"])
+                if not close(kv, base):
+                    ctx.violation("S5", f"K changes under the global scale factor 1e{r['exp10']}: {base!r} -> {kv!r} ({r['result']['class']}) ({fam}, n={n})",
+                                  {"kind": "invariance", "variant": "scaled_extreme", "family": fam, "n": n},
+                                  dict(rep, variant=f"every entry multiplied by 1e{r['exp10']}", variant_k=kv))
             # SVD oracle contract on this input
             if o.get("sv2") is not None:
                 s2, s4 = frac_of_hex(o["sv2"]), frac_of_hex(o["sv4"])
@@ -152,11 +158,14 @@ def oracle(ctx, obs):
                          "(sigma^4 under/overflows; the power sums are not normalised); outside the validated range |entries| in [1e-60, 1e60]")
             ctx.note(f"schmidt_number of the all-zero 2x2 array: {o['zero']} (outside the property: non-zero arrays)")
         elif k == "setup":
-            n = o["n"]
-            ctx.seen(("setup", o["setup"], n, tuple(o["xs"] + o["ys"])))
+            nx, ny = o.get("nx", o["n"]), o.get("ny", o["n"])
+            n = isqrt_exact(nx * ny)
+            ctx.seen(("setup", o["setup"], nx, ny, tuple(o["xs"] + o["ys"])))
+            if nx != ny:
+                ctx.count("setup:unequal_counts")
             ctx.count(f"setup:{o['setup']}")
             d, v = o["direct"], o["via_array"]
-            rep = {"setup": o["setup"], "n": n, "signal_axis_rad_per_s": [f64_of_hex(x) for x in o["xs"]],
+            rep = {"setup": o["setup"], "signal_steps": nx, "idler_steps": ny, "signal_axis_rad_per_s": [f64_of_hex(x) for x in o["xs"]],
                    "idler_axis_rad_per_s": [f64_of_hex(x) for x in o["ys"]], "direct": d, "via_array": v,
                    "call": "spdc.joint_spectrum(Integrator::default()).schmidt_number(FrequencySpace) vs math::schmidt_number(jsa_range(..))"}
             same = d["class"] == v["class"] and (d["class"] != "ok" or close(kval(d), kval(v)) or (kval(d) != kval(d) and kval(v) != kval(v)))
@@ -164,6 +173,11 @@ def oracle(ctx, obs):
                 ctx.violation("S5", f"JointSpectrum::schmidt_number ({d}) differs from schmidt_number(jsa_range) ({v}) for setup {o['setup']}, n={n}",
                               {"kind": "setup_vs_array", "setup": o["setup"], "n": n}, rep)
             mags = [frac_of_hex(h) for h in o["mag"]]
+            if n is None:
+                if d["class"] != "err":
+                    ctx.violation("S5", f"JointSpectrum::schmidt_number on a {nx}x{ny} range ({nx * ny} samples, not a perfect square) is not rejected: {d}",
+                                  {"kind": "setup_nonsquare", "setup": o["setup"]}, rep)
+                continue
             if d["class"] == "ok" and any(m != 0 for m in mags):
                 t, t2, kx = k_exact(n, mags)
                 if kx is None or not finite(kval(d)) or abs(Fraction(kval(d)) - kx) > TOL * kx:
@@ -279,7 +293,7 @@ def run(ctx):
         ctx.proof_failures.append(("Gen/SchmidtSrc.v", "translator", m))
     proved = (not msgs) and prove(ctx, "C11")
     quick = ctx.tier == "quick"
-    ncases, max_side, nsetup = (70, 16, 8) if quick else (260, 40, 24)
+    ncases, max_side, nsetup = (70, 16, 12) if quick else (260, 40, 32)
     obs = run_harness(ctx, binp, ["c11", ctx.seed, ncases, max_side, nsetup, 2000])
     oracle(ctx, obs)
     for o in [x for x in obs if x["kind"] == "val"][7:10]:
